@@ -608,16 +608,24 @@ func (c *Client) completeCPP(
 	// If subchannel proposal receiver, setup register funding update.
 	if prop.Type() == wire.SubChannelProposal && partIdx == ProposeeIdx {
 		parent.registerSubChannelFunding(ch.ID(), propBase.InitBals.Balances)
+		// If the opening fails here, nobody will await the funding update:
+		// release the interceptor, or a later funding update of the peer
+		// would keep the parent channel locked forever.
+		defer func() {
+			if err != nil {
+				parent.subChannelFundings.Release(ch.ID())
+			}
+		}()
 	}
 
-	if err := c.pr.ChannelCreated(ctx, ch.machine, peers, parentChannelID); err != nil {
+	if err = c.pr.ChannelCreated(ctx, ch.machine, peers, parentChannelID); err != nil {
 		return ch, errors.WithMessage(err, "persisting new channel")
 	}
 
-	if err := ch.init(ctx, propBase.InitBals, propBase.InitData); err != nil {
+	if err = ch.init(ctx, propBase.InitBals, propBase.InitData); err != nil {
 		return ch, errors.WithMessage(err, "setting initial bals and data")
 	}
-	if err := ch.initExchangeSigsAndEnable(ctx); err != nil {
+	if err = ch.initExchangeSigsAndEnable(ctx); err != nil {
 		return ch, errors.WithMessage(err, "exchanging initial sigs and enabling state")
 	}
 
